@@ -42,6 +42,18 @@ type Result struct {
 	RootOrder []string
 	// Pos describes the type of each resolver position reached (for drawing overrides)
 	Pos map[string]PosInfo
+	// ListLen: for list-typed resolver positions, the length the plan gives
+	ListLen map[string]int
+	// Elems: value positions that are elements of lists of composite type (key, response path)
+	Elems []ElemPos
+}
+
+type ElemPos struct {
+	Key      string
+	Path     string
+	Abstract bool
+	NonNull  bool
+	ListLen  int
 }
 
 type PosInfo struct {
@@ -335,8 +347,10 @@ func (x *executor) field(obj *ast.Definition, objKey string, fd *ast.FieldDefini
 		x.res.Resolvers = append(x.res.Resolvers, fpath)
 		if x.res.Pos == nil {
 			x.res.Pos = map[string]PosInfo{}
+			x.res.ListLen = map[string]int{}
 		}
 		td := x.Schema.Types[fd.Type.Name()]
+		x.res.ListLen[fpath] = x.Plan.ListLen(fpath)
 		x.res.Pos[fpath] = PosInfo{NonNull: fd.Type.NonNull, List: fd.Type.Elem != nil,
 			Abstract: td != nil && td.IsAbstractType(), Object: td != nil && td.Kind == ast.Object}
 		o := x.Plan.Get(fpath, !fd.Type.NonNull)
@@ -346,9 +360,6 @@ func (x *executor) field(obj *ast.Definition, objKey string, fd *ast.FieldDefini
 			return null(), true
 		case plan.Panic:
 			x.addErr(fpath, "panic", o.Msg)
-			return null(), true
-		case plan.Foreign:
-			x.addErr(fpath, "panic", "")
 			return null(), true
 		}
 	}
@@ -385,11 +396,20 @@ func (x *executor) complete(t *ast.Type, key, path string, sels []ast.SelectionS
 		}
 		return null(), true
 	}
+	if o.Kind == plan.Foreign {
+		// a Go value no implementor matches: gqlgen's own marshalling code panics at this position
+		x.addErr(path, "foreign", "")
+		return null(), true
+	}
 	if t.Elem != nil {
 		n := x.Plan.ListLen(key)
 		arr := &strictjson.Value{Kind: strictjson.Array, Arr: []*strictjson.Value{}}
 		listNull := false
 		for i := 0; i < n; i++ {
+			if ed := x.Schema.Types[t.Elem.Name()]; ed != nil && t.Elem.Elem == nil && (ed.IsAbstractType() || ed.Kind == ast.Object) {
+				x.res.Elems = append(x.res.Elems, ElemPos{Key: key + "[" + strconv.Itoa(i) + "]", Path: path + "[" + strconv.Itoa(i) + "]",
+					Abstract: ed.IsAbstractType(), NonNull: t.Elem.NonNull, ListLen: n})
+			}
 			ev, isNull := x.complete(t.Elem, key+"["+strconv.Itoa(i)+"]", path+"["+strconv.Itoa(i)+"]", sels)
 			if isNull && t.Elem.NonNull {
 				listNull = true
